@@ -4,6 +4,7 @@ package main
 
 import (
 	"context"
+	"errors"
 	"fmt"
 	"time"
 
@@ -50,6 +51,8 @@ func exesStr(es []ExeSpec) string {
 	}
 	return s
 }
+
+var errCustomCause = errors.New("custom cancellation cause")
 
 type MultiOpts struct {
 	Quiet      bool // no event recording (race build: the harness must not share memory between threads)
@@ -105,6 +108,25 @@ func multiBody(stack []Spec, exes []ExeSpec, o MultiOpts) func() {
 						env.obs()
 						x.CancelTick1 = env.Tick
 					})
+				case "cancelcause":
+					ctx, cancel := vcontext.WithCancelCause(context.Background())
+					x.Ctx = ctx
+					ex = ex.WithContext(ctx)
+					wg.Add(1)
+					vrt.GoH(fmt.Sprintf("canceller%d", x.ID), func() {
+						defer wg.Done()
+						vrt.Sleep(int64(es.CancelAt))
+						env.obs()
+						x.CancelTick0, x.CancelTime = env.Tick, vrt.Elapsed()
+						cancel(errCustomCause)
+						env.obs()
+						x.CancelTick1 = env.Tick
+					})
+				case "deadlinecause":
+					ctx, cancel := vcontext.WithDeadlineCause(context.Background(), time.Unix(0, vrt.Now()).Add(es.CancelAt-es.StartAt), errCustomCause)
+					defer cancel()
+					x.Ctx = ctx
+					ex = ex.WithContext(ctx)
 				case "deadline":
 					ctx, cancel := vcontext.WithDeadline(context.Background(), time.Unix(0, vrt.Now()).Add(es.CancelAt-es.StartAt))
 					defer cancel()
